@@ -476,6 +476,23 @@ pub fn run(opts: &Opts) -> Vec<Report> {
         total.bound = format!("all timestamp sequences (every arrival order) of length <= {} over {:?} ms; durations 1,2,3,5 ms; caps 1,2,3,unbounded; TimeWindow.record/add_event, WindowManager, WindowedStream (tumbling)", depth, tss);
         out.push(total);
     }
+    // durations above one second that are not whole seconds (a span computed through floating-point seconds is one
+    // millisecond short for 1001, 1003, 1235 ...), with events exactly one span apart
+    let (cname, cdepth) = if opts.tier == Tier::Quick { ("win_coarse_len5", 5) } else { ("win_coarse_len6", 6) };
+    if crate::props::wants(opts, cname) {
+        let mut total = Report::new(cname);
+        for w in [1001u64, 1003, 1235, 1500, 4097, 60_001] {
+            let tss: Vec<u64> = vec![0, 1, w - 1, w, w + 1, 2 * w];
+            for cap in [2usize, INF] {
+                let mut cfg = Config::new(cname, cdepth);
+                cfg.ctx = json!({"duration_ms": w, "cap": cap, "tss": tss});
+                let t = tss.clone();
+                total.merge(explore::explore(&move || WinSys::new(w, cap, &t), &cfg));
+            }
+        }
+        total.bound = format!("all timestamp sequences of length <= {} over {{0, 1, w-1, w, w+1, 2w}} for durations w = 1001, 1003, 1235, 1500, 4097, 60001 ms; caps 2, unbounded; same subjects and oracle as win_*", cdepth);
+        out.push(total);
+    }
     let aplan: Vec<(&str, Vec<u64>, usize, u32)> = match opts.tier {
         Tier::Quick => vec![("alpha_len4", full.clone(), 4, 2), ("alpha_len6_small", small.clone(), 6, 1)],
         Tier::Thorough => vec![("alpha_len5", full.clone(), 5, 2), ("alpha_len7_small", small.clone(), 7, 2), ("alpha_len9_tiny", tiny.clone(), 9, 1)],
